@@ -27,6 +27,7 @@ type op struct {
 	freq               int
 	dac3               *mp4.Dac3Box
 	dec3               *mp4.Dec3Box
+	ac3Sup             string // '3'/'E': the configuration as supplied, taken before the first call (ac3Show)
 	s1, s2, s3         string
 	exp                []uint64 // V/H: the values the parameter sets were generated from (nil: captured parameter sets)
 }
@@ -186,8 +187,14 @@ func apply(init *mp4.InitSegment, o *op) (oc byte) {
 	case 'C':
 		err = init.Moov.Traks[o.k].SetAACDescriptor(o.objType, o.freq)
 	case '3':
+		if o.ac3Sup == "" {
+			o.ac3Sup = ac3Show(o.dac3)
+		}
 		err = init.Moov.Traks[o.k].SetAC3Descriptor(o.dac3)
 	case 'E':
+		if o.ac3Sup == "" {
+			o.ac3Sup = ac3Show(o.dec3)
+		}
 		err = init.Moov.Traks[o.k].SetEC3Descriptor(o.dec3)
 	case 'W':
 		err = init.Moov.Traks[o.k].SetWvttDescriptor(o.s1)
